@@ -78,6 +78,53 @@ void h_c07_resolve(void)
     __CPROVER_assert(verif_thrown == 0, "c07.resolve.no-exception");
     REACH;
 }
+void w07_setup_G(int m, int g0, int g1, int g2);
+void w07_add_frame(void);
+void w07_move_to(void);
+int w07_G_size(void);
+int w07_G_index_of(int name, int* has);
+int w07_F_sym_is_G(int i, int j);
+int w07_G_sym_is(int i, int j);
+int w07_gsym_frame_is_F(int j);
+int w07_gsym_frame_is_G(int j);
+static int last_index_g(int m, const int* gn, int name)
+{
+    int r = -1;
+    if (name == 0) return -1;
+    for (int i = 0; i < 3; i++) if (i < m && gn[i] == name) r = i;
+    return r;
+}
+/* F.add(G) (add all symbols of another frame) and G.move_to(F) (move them, leaving G empty and reusable) */
+static void add_or_move(int move)
+{
+    struct fr f = any_frame();
+    __CPROVER_assume(f.n <= 2);
+    int m, gn[3], name, has;
+    __CPROVER_assume(m >= 0 && m <= 3 && name >= 0 && name <= 3);
+    for (int i = 0; i < 3; i++) __CPROVER_assume(gn[i] >= 0 && gn[i] <= 3);
+    w07_setup_G(m, gn[0], gn[1], gn[2]);
+    if (move) w07_move_to(); else w07_add_frame();
+    __CPROVER_assert(w07_size() == f.n + m, "c07.add(frame).all-symbols-are-appended");
+    for (int i = 0; i < 3; i++) if (i < f.n) __CPROVER_assert(w07_sym_at(i) == i, "c07.add(frame).earlier-symbols-unchanged");
+    for (int j = 0; j < 3; j++) if (j < m) __CPROVER_assert(w07_F_sym_is_G(f.n + j, j), "c07.add(frame).symbols-keep-their-order");
+    int idx = w07_index_of(name, &has);
+    int lg = last_index_g(m, gn, name), lf = last_index(f, name);
+    __CPROVER_assert(has == (lg >= 0 || lf >= 0), "c07.add(frame).a-name-is-bound-iff-one-of-the-two-frames-declares-it");
+    __CPROVER_assert(!has || idx == (lg >= 0 ? f.n + lg : lf), "c07.add(frame).the-added-frame's-declaration-shadows-an-earlier-one-of-the-same-name;-other-names-keep-their-binding");
+    if (move) {
+        int gh;
+        w07_G_index_of(name, &gh);
+        __CPROVER_assert(w07_G_size() == 0 && gh == 0, "c07.move_to.the-source-frame-is-left-empty:-no-symbols-and-NO-names-(it-is-reused-for-the-next-parameter-list)");
+        for (int j = 0; j < 3; j++) if (j < m) __CPROVER_assert(w07_gsym_frame_is_F(j), "c07.move_to.moved-symbols-point-back-to-their-new-frame");
+    } else {
+        int gh, gi = w07_G_index_of(name, &gh);
+        __CPROVER_assert(w07_G_size() == m && gh == (lg >= 0) && (!gh || gi == lg), "c07.add(frame).the-added-frame-itself-is-unchanged");
+        for (int j = 0; j < 3; j++) if (j < m) __CPROVER_assert(w07_G_sym_is(j, j) && w07_gsym_frame_is_G(j), "c07.add(frame).its-symbols-still-point-back-to-it");
+    }
+    REACH;
+}
+void h_c07_add_frame(void) { add_or_move(0); }
+void h_c07_move_to(void) { add_or_move(1); }
 void h_c07_create(void)
 {
     struct fr f = any_frame();
